@@ -351,3 +351,26 @@ def run(index, rep, tier):
             and sorted([norm(rets[0].value.right.left), norm(rets[0].value.right.right)]) == sorted([ext, inte]) and ext != inte
         rep.check(ok, "R17.6", f.qualname, "treeness = %s" % (norm(rets[0].value) if rets else None), fn_where(f, rets[0] if rets else None), "treeness returns <non-leaf lengths> / (<leaf lengths> + <non-leaf lengths>)",
                   "treeness returns `%s` where `%s` accumulates the leaf edges and `%s` the internal ones: the statistic is the proportion of tree length on INTERNAL branches" % (norm(rets[0].value) if rets else None, ext, inte))
+
+    # ---- R17.10 an edge is crossed on a half-open interval
+    with rep.section("R17.10"):
+        rep.rule("R17.10", "an edge is crossed on a half-open interval: where num_lineages_at compares the distance with the root distance of a node's PARENT the comparison is strict (parent < d) while the node's own end is inclusive - with both ends inclusive an edge that starts exactly at the distance is counted together with the edge that ends there, so at every branching point the count is too high by the number of children")
+        nl = index.function(TREE + ".num_lineages_at")
+        prm = [p for p in nl.params if p != "self"]
+        if not prm:
+            raise AnalysisError("R17.10: num_lineages_at takes no distance")
+        dn = prm[0]
+        pairs = []
+        for c in (x for x in ast.walk(nl.node) if isinstance(x, ast.Compare)):
+            seq = [c.left] + list(c.comparators)
+            for i, op in enumerate(c.ops):
+                a, b = seq[i], seq[i + 1]
+                ta, tb = norm(a), norm(b)
+                if dn in (ta, tb) and ("_parent_node" in ta + tb or "parent_node" in ta + tb) and "root_distance" in ta + tb:
+                    strict = (isinstance(op, ast.Lt) and tb == dn) or (isinstance(op, ast.Gt) and ta == dn)
+                    pairs.append((c, "%s %s %s" % (ta, type(op).__name__, tb), strict))
+        if not pairs:
+            raise AnalysisError("R17.10: num_lineages_at no longer compares the distance with the parent's root distance; the counting scheme was not recognised")
+        for c, txt, strict in pairs:
+            rep.check(strict, "R17.10", nl.qualname, "closed interval at the parent's end (%s)" % txt, fn_where(nl, c), "num_lineages_at: the parent's end of the edge is exclusive",
+                      "Tree.num_lineages_at tests `%s`: an edge whose parent sits exactly at the distance is counted although the edge ending at that parent is counted as well - the number of lineages at the depth of a branching point comes out as 1 + the number of children instead of the number of edges crossing it" % txt)
